@@ -41,6 +41,8 @@ static struct {
     long queries;
     int legacy;
     int recycle;             /* the pool hands a freed handle out again at once (LIFO free list) */
+    int identity;            /* the pools use the work-unit handle itself as the unit handle (abt.h allows it): a unit that
+                              * goes from one user pool to another then has the same unit value in both */
     int freel[MAXREC], nfree;
     long recycled;
     int user_scheds;
@@ -54,12 +56,22 @@ static int up_index(ABT_pool pool)
             return i;
     return -1;
 }
+static urec *find_rec_p(uintptr_t h, int pi)
+{
+    /* the live unit with this handle in user pool pi (any pool: pi < 0); a dead one otherwise */
+    urec *dead = NULL;
+    for (int i = 0; i < S.nrec; i++)
+        if (S.REC[i].handle == h) {
+            if (S.REC[i].alive && (pi < 0 || S.REC[i].pool == pi))
+                return &S.REC[i];
+            if (!dead || (pi >= 0 && S.REC[i].pool == pi))
+                dead = &S.REC[i];
+        }
+    return dead;
+}
 static urec *find_rec(uintptr_t h)
 {
-    for (int i = 0; i < S.nrec; i++)
-        if (S.REC[i].handle == h)
-            return &S.REC[i];
-    return NULL;
+    return find_rec_p(h, -1);
 }
 
 /* unit handles are crafted so that all of them fall into bucket 1 of the 256-entry
@@ -73,8 +85,17 @@ static ABT_unit do_create_unit(ABT_pool pool, ABT_thread thread)
     for (int i = 0; i < S.nrec; i++)
         SIM_CHECK(!(S.REC[i].alive && S.REC[i].thread == thread && S.REC[i].pool == pi), "upool:create-unit-twice",
                   "create_unit called for a work unit that already has a live unit in user pool %d", pi);
-    urec *r;
-    if (S.recycle && S.nfree > 0) {
+    urec *r = NULL;
+    if (S.identity) {
+        for (int i = 0; i < S.nrec && !r; i++)
+            if (!S.REC[i].alive)
+                r = &S.REC[i];
+        if (!r) {
+            SIM_CHECK(S.nrec < MAXREC, "infra:too-many-units", "unit record table full");
+            r = &S.REC[S.nrec++];
+        }
+        r->handle = (uintptr_t)thread;
+    } else if (S.recycle && S.nfree > 0) {
         /* like a slab allocator: the most recently freed handle is reused first, possibly by
          * another stream while the freeing stream has not returned from the library yet */
         r = &S.REC[S.freel[--S.nfree]];
@@ -93,20 +114,20 @@ static ABT_unit do_create_unit(ABT_pool pool, ABT_thread thread)
 static void do_free_unit(ABT_pool pool, ABT_unit unit)
 {
     int pi = up_index(pool);
-    urec *r = find_rec((uintptr_t)unit);
+    urec *r = find_rec_p((uintptr_t)unit, pi);
     SIM_CHECK(r != NULL, "upool:free-unknown-unit", "free_unit called with a handle that create_unit never returned");
     SIM_CHECK(r->alive, "upool:free-unit-twice", "free_unit called twice for unit %#lx", (unsigned long)r->handle);
     SIM_CHECK(r->pool == pi, "upool:free-wrong-pool", "free_unit of pool %d called for a unit of pool %d", pi, r->pool);
     SIM_CHECK(!r->queued, "upool:free-queued-unit", "free_unit called for a unit that is still queued in the pool");
     r->alive = 0;
     S.UP[pi].frees++;
-    if (S.recycle)
+    if (S.recycle && !S.identity)
         S.freel[S.nfree++] = (int)(r - S.REC);
 }
 static void do_push(ABT_pool pool, ABT_unit unit)
 {
     int pi = up_index(pool);
-    urec *r = find_rec((uintptr_t)unit);
+    urec *r = find_rec_p((uintptr_t)unit, pi);
     SIM_CHECK(r != NULL, "upool:push-unknown-unit", "push called with a handle that create_unit never returned");
     SIM_CHECK(r->alive, "upool:use-after-free", "push called with unit %#lx after free_unit", (unsigned long)r->handle);
     SIM_CHECK(r->pool == pi, "upool:push-wrong-pool", "unit of user pool %d pushed to user pool %d", r->pool, pi);
@@ -204,7 +225,7 @@ static void check_translation(cu *u, ABT_thread th)
     ABT_unit unit;
     ABT_OK(ABT_thread_get_unit(th, &unit));
     if (u->cur < NUP) {
-        urec *r = find_rec((uintptr_t)unit);
+        urec *r = find_rec_p((uintptr_t)unit, u->cur);
         SIM_CHECK(r && r->alive && r->thread == th && r->pool == u->cur, "upool:wrong-translation",
                   "ABT_thread_get_unit of ULT %d returned %#lx which is not its live unit in user pool %d", u->id, (unsigned long)(uintptr_t)unit, u->cur);
         ABT_thread back = ABT_THREAD_NULL;
@@ -259,6 +280,7 @@ static void run_c14(void)
     sim_allow_faults((1u << SIM_F_CHAOS_POP) | (1u << SIM_F_STALL) | (1u << SIM_F_SLOW_NODE) | (1u << SIM_F_TARGET_DELAY) | (1u << SIM_F_NANOSLEEP_EARLY));
     S.legacy = plan_n(3) == 0;
     S.recycle = plan_bool();
+    S.identity = !S.legacy && plan_n(3) == 0;
     ABT_pool_user_def def = NULL;
     ABT_pool_def ldef;
     if (!S.legacy) {
@@ -303,7 +325,7 @@ static void run_c14(void)
     }
     int n = plan_range(1, sim_limit("units", 8));
     S.n = n;
-    sim_note("C14 %s user pools%s, streams=%d units=%d: ", S.legacy ? "legacy" : "new-style", S.recycle ? " recycling handles" : "", nes, n);
+    sim_note("C14 %s user pools%s%s, streams=%d units=%d: ", S.legacy ? "legacy" : "new-style", S.recycle ? " recycling handles" : "", S.identity ? " unit=thread-handle" : "", nes, n);
     if (S.user_scheds)
         sim_note("(%d user-defined schedulers) ", S.user_scheds);
     for (int i = 0; i < n; i++) {
@@ -427,6 +449,7 @@ static void run_c14_bulk(void)
     ABT_OK(ABT_init(0, NULL));
     S.legacy = plan_bool();
     S.recycle = plan_bool();
+    S.identity = !S.legacy && plan_n(3) == 0;
     ABT_pool_user_def def = NULL;
     ABT_pool_def ldef;
     /* two user pools (legacy definitions cannot tell their pools apart in create: one) and a
@@ -460,7 +483,7 @@ static void run_c14_bulk(void)
     P[np++] = S.builtin;
     c14_legacy_target = S.UP[0].pool;
     int n = plan_range(1, MAXU);
-    sim_note("C14 bulk %s pools=%d units=%d: ", S.legacy ? "legacy" : "new-style", np, n);
+    sim_note("C14 bulk %s%s pools=%d units=%d: ", S.legacy ? "legacy" : "new-style", S.identity ? " unit=thread-handle" : "", np, n);
     ABT_thread th[MAXU];
     int where[MAXU]; /* index into P */
     long expect_creates = 0;
@@ -555,3 +578,266 @@ static void run_c14_bulk(void)
     sim_count("c14.bulk_rounds", (uint64_t)S.queries);
 }
 SIM_WORKLOAD("C14", "bulk", run_c14_bulk, 3)
+
+/* ---- "dispatch": the unit-handle routines that a hand-written scheduler uses to place work.
+ * Units are created in staging pools that no scheduler serves (a built-in one and a user-defined
+ * one); a dispatcher takes them out as ABT_unit handles (ABT_pool_pop) and places each one with
+ * ABT_pool_push(pool, unit) into a worker pool (built-in or user-defined, each served by its own
+ * stream), or a dispatching scheduler runs it with ABT_xstream_run_unit(unit, pool) naming one of
+ * its own worker pools.  From then on the unit belongs to the pool named in that call: that is
+ * where it goes at every yield, what it reads as its last pool, and the staging pool never sees
+ * it again; the unit handle is re-created and released as the unit crosses pool kinds. ---- */
+#define DSP_MAXU 8
+typedef struct du {
+    int id, is_task, from, to, yields, via_sched;
+    ABT_thread th;
+    volatile int starts, done;
+} du;
+static struct {
+    du U[DSP_MAXU];
+    int n;
+    ABT_pool st[2], w[2]; /* staging / worker: [0] built-in, [1] user-defined (S.UP[0], S.UP[1]) */
+    ABT_pool dsp_own;     /* the dispatching scheduler's own pool */
+    volatile int dsp_left; /* units the dispatching scheduler still has to run */
+    long placed[2][2], run_unit_calls;
+} D;
+
+static void dsp_check_pool(du *u, const char *when)
+{
+    ABT_pool p = ABT_POOL_NULL;
+    ABT_OK(ABT_self_get_last_pool(&p));
+    SIM_CHECK(p == D.w[u->to], "upool:wrong-pool-after-dispatch", "unit %d (%s): placed in worker pool %d (%s), it reads %s as its pool", u->id, when, u->to,
+              u->to ? "user-defined" : "built-in", p == D.st[0] ? "the built-in staging pool" : p == D.st[1] ? "the user-defined staging pool" : p == D.w[0] ? "the built-in worker pool" : p == D.w[1] ? "the user-defined worker pool" : "an unknown pool");
+    ABT_unit unit;
+    ABT_thread self, back = ABT_THREAD_NULL;
+    ABT_OK(ABT_self_get_thread(&self));
+    ABT_OK(ABT_self_get_unit(&unit));
+    ABT_OK(ABT_unit_get_thread(unit, &back));
+    SIM_CHECK(back == self, "upool:wrong-translation", "unit %d (%s): ABT_unit_get_thread of its own unit is another work unit", u->id, when);
+    if (u->to == 1) {
+        urec *r = find_rec_p((uintptr_t)unit, 1);
+        SIM_CHECK(r && r->alive && r->thread == self && r->pool == 1, "upool:wrong-translation", "unit %d (%s): its unit handle %#lx is not its live unit in the user-defined worker pool",
+                  u->id, when, (unsigned long)(uintptr_t)unit);
+    }
+}
+static void dsp_fn(void *arg)
+{
+    du *u = (du *)arg;
+    u->starts++;
+    SIM_CHECK(u->starts == 1, "once:started-twice", "unit %d started twice", u->id);
+    dsp_check_pool(u, "at start");
+    for (int i = 0; i < u->yields && !u->is_task; i++) {
+        if (i & 1)
+            ABT_OK(ABT_self_yield());
+        else
+            ABT_OK(ABT_thread_yield());
+        dsp_check_pool(u, "after a yield");
+        sim_progress();
+    }
+    u->done = 1;
+    sim_progress();
+}
+/* a scheduler that dispatches: it takes units out of the staging pools and runs each one naming
+ * one of its worker pools (pools[1], pools[2]); later it serves those worker pools */
+static int dsp_sched_init(ABT_sched sched, ABT_sched_config cfg)
+{
+    (void)sched;
+    (void)cfg;
+    return ABT_SUCCESS;
+}
+static void dsp_sched_run(ABT_sched sched)
+{
+    ABT_pool pools[3];
+    ABT_OK(ABT_sched_get_pools(sched, 3, 0, pools));
+    for (;;) {
+        int ran = 0;
+        for (int i = 0; i < D.n; i++) {
+            du *u = &D.U[i];
+            if (!u->via_sched || u->starts || u->via_sched == 2)
+                continue;
+            /* take it out of its staging pool as a unit handle */
+            ABT_unit unit = ABT_UNIT_NULL;
+            ABT_OK(ABT_pool_pop(D.st[u->from], &unit));
+            if (unit == ABT_UNIT_NULL)
+                continue;
+            ABT_thread t = ABT_THREAD_NULL;
+            ABT_OK(ABT_unit_get_thread(unit, &t));
+            du *v = NULL;
+            for (int k = 0; k < D.n; k++)
+                if (D.U[k].th == t)
+                    v = &D.U[k];
+            SIM_CHECK(v && v->from == u->from, "upool:wrong-translation", "ABT_pool_pop of a staging pool returned a unit that was never put there");
+            if (!v->via_sched) {
+                /* it belongs to the other dispatcher: put it back where it was */
+                ABT_OK(ABT_pool_push(D.st[v->from], unit));
+                continue;
+            }
+            v->via_sched = 2;
+            ABT_OK(ABT_unit_set_associated_pool(unit, D.w[v->to])); /* documented as a no-op */
+            D.run_unit_calls++;
+            D.placed[v->from][v->to]++;
+            ABT_OK(ABT_xstream_run_unit(unit, D.w[v->to]));
+            D.dsp_left--;
+            ran = 1;
+            sim_progress();
+        }
+        for (int k = 0; k < 3; k++) {
+            ABT_thread t = ABT_THREAD_NULL;
+            ABT_OK(ABT_pool_pop_thread(pools[k], &t));
+            if (t != ABT_THREAD_NULL) {
+                ABT_OK(ABT_self_schedule(t, ABT_POOL_NULL));
+                ran = 1;
+            }
+        }
+        ABT_bool stop = ABT_FALSE;
+        ABT_OK(ABT_sched_has_to_stop(sched, &stop));
+        if (stop == ABT_TRUE)
+            break;
+        ABT_OK(ABT_xstream_check_events(sched));
+        if (!ran)
+            sim_yield();
+    }
+}
+static int dsp_sched_free(ABT_sched sched)
+{
+    (void)sched;
+    return ABT_SUCCESS;
+}
+
+static void run_c14_dispatch(void)
+{
+    memset(&S, 0, sizeof S);
+    memset(&D, 0, sizeof D);
+    wl_env_swarm();
+    ABT_OK(ABT_init(0, NULL));
+    S.recycle = plan_bool();
+    S.identity = !S.legacy && plan_n(3) == 0;
+    ABT_pool_user_def def = NULL;
+    ABT_OK(ABT_pool_user_def_create(n_create_unit, n_free_unit, n_is_empty, n_pop, n_push, &def));
+    ABT_OK(ABT_pool_user_def_set_get_size(def, n_get_size));
+    for (int i = 0; i < NUP; i++)
+        ABT_OK(ABT_pool_create(def, ABT_POOL_CONFIG_NULL, &S.UP[i].pool));
+    ABT_OK(ABT_pool_user_def_free(&def));
+    ABT_OK(ABT_pool_create_basic(plan_bool() ? ABT_POOL_FIFO : ABT_POOL_RANDWS, ABT_POOL_ACCESS_MPMC, ABT_FALSE, &D.st[0]));
+    ABT_OK(ABT_pool_create_basic(plan_bool() ? ABT_POOL_FIFO : ABT_POOL_FIFO_WAIT, ABT_POOL_ACCESS_MPMC, ABT_FALSE, &D.w[0]));
+    ABT_OK(ABT_pool_create_basic(ABT_POOL_FIFO, ABT_POOL_ACCESS_MPMC, ABT_FALSE, &D.dsp_own));
+    D.st[1] = S.UP[0].pool;
+    D.w[1] = S.UP[1].pool;
+    D.n = plan_range(1, sim_limit("units", DSP_MAXU));
+    int use_sched = plan_bool();
+    sim_note("C14 dispatch units=%d%s%s:", D.n, use_sched ? " dispatching-scheduler" : "", S.identity ? " unit=thread-handle" : "");
+    long expect_creates = 0;
+    for (int i = 0; i < D.n; i++) {
+        du *u = &D.U[i];
+        u->id = i;
+        u->is_task = plan_n(4) == 0;
+        u->from = (int)plan_n(2);
+        u->to = (int)plan_n(2);
+        u->yields = (int)plan_n(4);
+        u->via_sched = use_sched && plan_bool();
+        sim_note(" %s:%s>%s/y%d%s", u->is_task ? "task" : "ult", u->from ? "U" : "B", u->to ? "U" : "B", u->yields, u->via_sched ? "/run_unit" : "");
+        if (u->is_task)
+            ABT_OK(ABT_task_create(D.st[u->from], dsp_fn, u, &u->th));
+        else
+            ABT_OK(ABT_thread_create(D.st[u->from], dsp_fn, u, ABT_THREAD_ATTR_NULL, &u->th));
+        expect_creates += u->from == 1;
+        expect_creates += u->to == 1; /* from U to the other U as well: another pool, another unit */
+        D.dsp_left += u->via_sched != 0;
+    }
+    /* the streams that serve the worker pools (and the dispatching scheduler) */
+    ABT_xstream xs[3] = { ABT_XSTREAM_NULL, ABT_XSTREAM_NULL, ABT_XSTREAM_NULL };
+    ABT_sched dsched = ABT_SCHED_NULL;
+    int one_stream = plan_bool();
+    if (use_sched) {
+        ABT_sched_def sdef = { ABT_SCHED_TYPE_ULT, dsp_sched_init, dsp_sched_run, dsp_sched_free, NULL };
+        ABT_pool sp[3] = { D.dsp_own, D.w[0], D.w[1] };
+        ABT_OK(ABT_sched_create(&sdef, 3, sp, ABT_SCHED_CONFIG_NULL, &dsched));
+        ABT_OK(ABT_xstream_create(dsched, &xs[0]));
+    } else if (one_stream) {
+        ABT_OK(ABT_xstream_create_basic(ABT_SCHED_BASIC, 2, D.w, ABT_SCHED_CONFIG_NULL, &xs[0]));
+    } else {
+        ABT_OK(ABT_xstream_create_basic(ABT_SCHED_BASIC, 1, &D.w[0], ABT_SCHED_CONFIG_NULL, &xs[0]));
+        ABT_OK(ABT_xstream_create_basic(ABT_SCHED_BASIC, 1, &D.w[1], ABT_SCHED_CONFIG_NULL, &xs[1]));
+    }
+    /* the primary ULT dispatches the rest with ABT_pool_push(pool, unit) */
+    int left = 0;
+    for (int i = 0; i < D.n; i++)
+        left += !D.U[i].via_sched;
+    while (left > 0) {
+        int progress = 0;
+        for (int f = 0; f < 2; f++) {
+            ABT_unit unit = ABT_UNIT_NULL;
+            ABT_OK(ABT_pool_pop(D.st[f], &unit));
+            if (unit == ABT_UNIT_NULL)
+                continue;
+            ABT_thread t = ABT_THREAD_NULL;
+            ABT_OK(ABT_unit_get_thread(unit, &t));
+            du *v = NULL;
+            for (int k = 0; k < D.n; k++)
+                if (D.U[k].th == t)
+                    v = &D.U[k];
+            SIM_CHECK(v && v->from == f && !v->starts, "upool:wrong-translation", "ABT_pool_pop of staging pool %d returned a unit that was never put there", f);
+            if (v->via_sched) {
+                ABT_OK(ABT_pool_push(D.st[f], unit)); /* the scheduler's: back to where it was (same pool: same unit) */
+                continue;
+            }
+            ABT_OK(ABT_unit_set_associated_pool(unit, D.w[v->to]));
+            D.placed[f][v->to]++;
+            ABT_OK(ABT_pool_push(D.w[v->to], unit));
+            left--;
+            progress = 1;
+            sim_progress();
+        }
+        if (!progress)
+            ABT_OK(ABT_thread_yield());
+    }
+    for (int i = 0; i < D.n; i++) {
+        du *u = &D.U[i];
+        ABT_OK(ABT_thread_join(u->th));
+        SIM_CHECK(u->starts == 1 && u->done == 1, "once:not-exactly-once", "unit %d has starts=%d done=%d when its join returned", i, u->starts, u->done);
+        ABT_pool lp;
+        ABT_OK(ABT_thread_get_last_pool(u->th, &lp));
+        SIM_CHECK(lp == D.w[u->to], "upool:wrong-pool-after-dispatch", "unit %d: after its end its last pool is not the worker pool it was placed in", i);
+        ABT_OK(ABT_thread_free(&u->th));
+        sim_progress();
+    }
+    /* nothing ever came back to a staging pool */
+    for (int f = 0; f < 2; f++) {
+        size_t sz = 9, tot = 9;
+        ABT_OK(ABT_pool_get_size(D.st[f], &sz));
+        ABT_OK(ABT_pool_get_total_size(D.st[f], &tot));
+        SIM_CHECK(sz == 0 && tot == 0, "upool:staging-not-empty", "%s staging pool: size %zu, total size %zu after every unit was dispatched and joined", f ? "user-defined" : "built-in", sz, tot);
+    }
+    for (int k = 0; k < 3; k++)
+        if (xs[k] != ABT_XSTREAM_NULL) {
+            ABT_OK(ABT_xstream_join(xs[k]));
+            ABT_OK(ABT_xstream_free(&xs[k]));
+        }
+    if (dsched != ABT_SCHED_NULL)
+        ABT_OK(ABT_sched_free(&dsched)); /* made by ABT_sched_create: not freed with its stream */
+    long creates = 0, frees = 0;
+    for (int i = 0; i < NUP; i++) {
+        creates += S.UP[i].creates;
+        frees += S.UP[i].frees;
+    }
+    SIM_CHECK(creates == expect_creates, "upool:create-unit-count", "create_unit was called %ld times for %ld associations with user pools", creates, expect_creates);
+    SIM_CHECK(frees == creates, "upool:free-unit-count", "%ld units created, %ld freed", creates, frees);
+    for (int i = 0; i < NUP; i++)
+        ABT_OK(ABT_pool_free(&S.UP[i].pool));
+    ABT_OK(ABT_pool_free(&D.st[0]));
+    ABT_OK(ABT_pool_free(&D.w[0]));
+    ABT_OK(ABT_pool_free(&D.dsp_own));
+    ABT_OK(ABT_finalize());
+    sim_ledger_check_empty("after ABT_finalize");
+    sim_count("c14.dispatch_builtin_to_builtin", (uint64_t)D.placed[0][0]);
+    sim_count("c14.dispatch_builtin_to_user", (uint64_t)D.placed[0][1]);
+    sim_count("c14.dispatch_user_to_builtin", (uint64_t)D.placed[1][0]);
+    sim_count("c14.dispatch_user_to_user", (uint64_t)D.placed[1][1]);
+    sim_count("c14.dispatch_run_unit", (uint64_t)D.run_unit_calls);
+}
+static void run_c14_dispatch_c01(void)
+{
+    run_c14_dispatch();
+}
+SIM_WORKLOAD("C14", "dispatch", run_c14_dispatch, 4)
+SIM_WORKLOAD("C01", "dispatch", run_c14_dispatch_c01, 2)
